@@ -7,6 +7,7 @@ import Driver.Ops.Disk
 import Driver.Ops.Envelope
 import Driver.Ops.Policy
 import Driver.Ops.Proxy
+import Driver.Ops.Relay
 import Driver.Ops.Reply
 import Driver.Ops.Server
 import Driver.Ops.Store
@@ -23,6 +24,7 @@ def dispatch (line : String) : String :=
   | "envelope" :: rest => envelopeOp rest
   | "policy" :: rest => policyOp rest
   | "proxy" :: rest => proxyOp rest
+  | "relay" :: rest => relayOp rest
   | "reply" :: rest => replyOp rest
   | "server" :: rest => serverOp rest
   | "store" :: rest => storeOp rest
